@@ -128,6 +128,33 @@ def battery(work):
     return items[::step][:220]
 
 
+def battery_wide(work, tier):
+    """Inputs for the single-converter runs of every configuration class: the part of the C01 universe in which
+    hand-written hooks decide (responses with several array alternatives, K = 3; union-holding structures and all
+    responses, K = 1), several thousand values."""
+    from .pyside import canon
+    items, seen = [], set()
+    model = os.path.join(common.REPO, "generator", "lsp.json")
+    for roots, K, nsh in (("arrayunion", 3, 1), ("unionholder", 1, 1), ("response", 1, 1)):
+        states = os.path.join(work, "wide-%s.txt" % roots)
+        common.run_tlc("Codec", codec_check.gen_cfg(K, 0, nsh, 0, roots), env={"LSP_MODEL": model, "ALIAS_TABLE": os.path.join(work, "none.json")}, out_path=states, heap="2g")
+        for st in common.tagged_lines(states, "@S", is_path=True):
+            r = st["root"]
+            if r["kind"] not in ("structure", "response", "request", "notification"):
+                continue
+            j = decode(canon(st["w"]))
+            k = json.dumps([r["kind"], r["name"], j], sort_keys=True)
+            if k not in seen:
+                seen.add(k)
+                items.append({"kind": r["kind"], "cls": r["name"], "j": j, "vk": st["var"]["vk"]})
+        os.unlink(states)
+    cap = 3000 if tier == "quick" else 20000
+    if len(items) > cap:
+        step = len(items) / float(cap)
+        items = [items[int(i * step)] for i in range(cap)]
+    return items
+
+
 def child(args):
     mode, payload, bpath, work, idx = args
     ipath = os.path.join(work, "in-%s-%d.json" % (mode, idx))
@@ -185,6 +212,28 @@ def check(tier):
                                  env={"CONV_TRACE": tp}, heap="4g")
         if '"@DONE' not in out:
             raise common.MachineryError("ConverterHistory.tla did not consume the trace:\n" + out[-2000:])
+        # configuration independence on a WIDE battery: one converter per configuration class, one run each (own memo)
+        wide = battery_wide(work, tier)
+        wpath = os.path.join(work, "battery-wide.json")
+        json.dump(wide, open(wpath, "w"))
+        wjobs = [("hist", [cfg], wpath, work, 9000 + i) for i, cfg in enumerate(("fresh", "user", "user_nodetail", "user_hook"))]
+        with cf.ThreadPoolExecutor(max_workers=4) as ex:
+            wruns = list(ex.map(child, wjobs))
+        wtp = os.path.join(work, "trace-wide.json")
+        json.dump([{"events": r["events"]} for r in wruns], open(wtp, "w"))
+        wnev = sum(len(r["events"]) for r in wruns)
+        rc, wout = common.run_tlc("ConverterHistory", "CONSTANTS MaxLen = 0 NRuns = %d NEvents = %d\nINIT TInit\nNEXT TStep\nPOSTCONDITION AllConsumed\nCHECK_DEADLOCK FALSE\n" % (len(wruns), wnev),
+                                  env={"CONV_TRACE": wtp}, heap="6g")
+        if '"@DONE' not in wout:
+            raise common.MachineryError("ConverterHistory.tla did not consume the wide trace:\n" + wout[-2000:])
+        for f in common.tagged_lines(wout, "@F"):
+            r = wruns[f["run"] - 1]
+            ev = r["events"][f["l"] - 1]
+            item = wide[ev["input"]] if ev.get("e") == "Probe" else {}
+            for clause in f["c"]:
+                rep.violation({"clause": clause, "mode": "wide", "cfg": "/".join(r["input"]), "root": "%s:%s" % (item.get("kind", ""), item.get("cls", ""))},
+                              {"mode": "wide", "input": r["input"], "event": ev, "expected": f.get("expected"), "value": item})
+        nev += wnev
         for f in common.tagged_lines(out, "@F"):
             r = runs[f["run"] - 1]
             ev = r["events"][f["l"] - 1]
@@ -206,7 +255,7 @@ def check(tier):
         "maximal_schedules_in_spec": len(scheds), "schedules_forced": len(sel),
         "abstract_transitions": ntrans, "abstract_transitions_covered_by_selection": ntrans if sel else 0,
         "schedule_steps_forced_exactly": forced, "schedule_steps_deviated": deviated,
-        "histories": len(hists), "history_max_len": hist_len, "stress_runs": stress_runs, "shared_converter_runs": stress_runs, "battery_inputs": len(bat),
+        "histories": len(hists), "history_max_len": hist_len, "stress_runs": stress_runs, "shared_converter_runs": stress_runs, "battery_inputs": len(bat), "wide_battery_inputs": len(wide), "wide_single_converter_runs": len(wruns),
         "exhaustive": tier == "thorough",
         "rule": "every maximal behaviour of ConverterInit.tla (2 threads, KItems=2, NClasses=2, unlocked design = most adversarial interleavings) is a schedule; quick forces a transition-covering subset, thorough all of them; every creation history over {fresh,user,user_nodetail,same_again} up to the bound; each run in a fresh interpreter; all Create/Probe events validated by ConverterHistory.tla",
         "samples": [{"schedule": [[x["t"], x["a"]] for x in sel[0]]}, {"history": hists[0]}, {"first_events": runs[0]["events"][:4]}],
